@@ -88,6 +88,13 @@ def main():
                 hist[part.split('(')[0]] += 1
         chk.coverage['check_messages_tag_histogram'] = dict(hist)
         chk.coverage['catalog_sizes'] = dict(collections.Counter(min(len(es), 9) for _, es in cases))
+        # the reference rules themselves (Spec.MessageRules, evaluated by the driver) against the REAL code
+        clean = [i for i, o in enumerate(outs) if '!' not in o]
+        chk.stream('spec-vs-code', [lines[i].replace('msg check', 'msg spec', 1) for i in clean], [outs[i] for i in clean])
+        # message_repr with the two templates (the model uses its closed form)
+        reprs = [(rng.random() < 0.5, e.msgid, e.msgctxt) for _, es in cases[:3000] for e in es][:4000]
+        reprs += [(c, m, x) for c in (False, True) for m in ('', 'a', 'a b', "it's", '"q"', '\x1b', 'é', '{}', '{0}', '{id}', 'a\nb', '\\') for x in (None, '', 'c', '{ctxt}', "c'")]
+        chk.stream('message-repr', ['msg repr %d %s %s' % (1 if c else 0, M.hs(m), M.ho(x)) for c, m, x in reprs], [M.impl_repr(c, m, x) for c, m, x in reprs])
         # _check_message_flags alone, one entry per line (returned info + tags)
         flag_entries = [e for _, es in cases[:len(cases) // 2] for e in es if e.flags][: (60000 if big else 8000)]
         flag_entries += [G.E('m', msgid_plural=rng.choice([None, 'ms']), msgstr_plural={}, flags=G.gen_flags(rng, fmts)) for _ in range((30000 if big else 4000) * boost)]
@@ -268,7 +275,17 @@ def main():
                  'Spec.MessageRules is my reading of data/tags + DESIGN Appendix B; ref_rules (Python) is a second, independent reading used by the falsifier'],
         explanation=EXPLANATION)
 
-EXPLANATION = 'see tools/manifest.d/C16.json'
+EXPLANATION = (
+    'Proved in Lean for ALL entry lists, contexts and sane environments (Props/C16.lean): message_tags_eq / check_messages_eq (the imperative model of check_messages with its '
+    'accumulators msgid_counter and found_unusual_characters, of _check_message_flags and of the XML gate = the rule set Spec.MessageRules, per entry and file-level, with extras and order), '
+    'message_flags_eq, trace_at, and one theorem per tag read off the rule set: duplicate_message_definition_iff, empty_file_iff / empty_file_po_iff, translation_in_template_iff, '
+    'inconsistent_leading_newlines_iff, inconsistent_trailing_newlines_iff (+ considered_mem), partially_translated_message_iff, conflict_marker_in_translation_iff, '
+    'unusual_character_in_translation_iff (+ mem_reported, mem_seenBefore, mem_unusualTags, reported_sorted), stray_previous_msgid_iff, unknown_message_flag_iff (+ flag_kind_known), '
+    'duplicate_message_flag_iff, conflicting_message_flags_iff, redundant_message_flag_iff, invalid_range_flag_iff, range_flag_without_plural_string_iff, malformed_xml_iff, malformed_xml_only_if, '
+    'obsolete_exempt, header_entry_exempt, fuzzy_exemptions, clean_entry_silent, clean_catalog_silent, msg_nocrash, live_env_sane, live_message_tags; pins emitted_tags_pin, unusual_class_pin, '
+    'unusual_class_documented, conflict_marker_pin, flag_syntax_pin, xml_gate_pin, checker_keys_pin. Test-level (correspondence, not proof): that the model IS the Python code (streams check-messages, '
+    'check-message-flags, spec-vs-code, message-repr, re-unusual, re-marker, re-gate, re-range, e2e-files), expat, the format checkers behind the dispatch (C14), tags._escape inside message_repr (C02). '
+    'In duplicate_message_flag_iff the range part is stated through the dictionary rangeDict (one range with total multiplicity > 1), not yet as a count over the flag list.')
 
 if __name__ == '__main__':
     if len(sys.argv) > 1 and sys.argv[1] == '--sequence':
